@@ -17,6 +17,26 @@ from core import WORK, ToolError, log
 
 _LOCK = threading.Lock()     # result accounting of program sets compiled in parallel
 
+
+class _TargetLock:
+    """Exclusive use of a cargo target directory from the build until the binary has been copied out of it: program
+    sets of different checks (which may run at the same time) share target directories, and all binaries are `kprog`."""
+
+    def __init__(self, tdir):
+        self.tdir = tdir
+
+    def __enter__(self):
+        import fcntl
+        os.makedirs(self.tdir, exist_ok=True)
+        self.f = open(os.path.join(self.tdir, ".verif-lock"), "w")
+        fcntl.flock(self.f, fcntl.LOCK_EX)
+        return self
+
+    def __exit__(self, *a):
+        import fcntl
+        fcntl.flock(self.f, fcntl.LOCK_UN)
+        self.f.close()
+
 FEATURES = '["rust_1_83", "alloc", "cmp", "iter", "parsing_proc"]'
 
 
@@ -133,12 +153,24 @@ class ProgSet:
             log("  programs %-22s %6d cases in %d crates, %.1fs" % (self.name, n, len(shards), time.time() - t0))
             return n
         run = self.run
-        d = os.path.join(WORK, "prog", self.name)
+        d = os.path.join(WORK, "prog", self.name + ("-%d" % os.getpid() if self.name.startswith("_") else ""))
         shutil.rmtree(d, ignore_errors=True)
         live = list(range(len(self.cases)))
         e = dict(os.environ)
         e["CARGO_NET_OFFLINE"] = "true"
         t0 = time.time()
+        with _TargetLock(self.tdir or target_dir()):
+            live, p = self._build(d, live, e, timeout)
+            exe = os.path.join(d, "kprog-bin")
+            shutil.copy2(os.path.join(self.tdir or target_dir(), "debug", "kprog"), exe)
+        try:
+            return self._run_built(d, exe, live, p, timeout, t0)
+        finally:
+            if self.name.startswith("_"):
+                shutil.rmtree(d, ignore_errors=True)
+
+    def _build(self, d, live, e, timeout):
+        run = self.run
         for attempt in range(6):
             idx = self._write(d, live)
             p = subprocess.run(["timeout", str(timeout), "cargo", "build", "--offline"], cwd=d, env=e,
@@ -177,7 +209,9 @@ class ProgSet:
             live = [k for k in live if k not in bad]
         else:
             raise ToolError("program set %s: still failing to compile after removing bad cases" % self.name)
-        exe = os.path.join(self.tdir or target_dir(), "debug", "kprog")
+        return live, p
+
+    def _run_built(self, d, exe, live, p, timeout, t0):
         q = subprocess.run(["timeout", str(timeout), exe], stdout=subprocess.PIPE, stderr=subprocess.PIPE, text=True,
                            errors="replace", preexec_fn=core._limits)
         got = {}
@@ -271,7 +305,7 @@ def konst_rlib():
 def rustc_verdict(src, tag):
     """Does this single program compile against the real crate?  -> (accepted: bool, first error line)."""
     rlib, deps = konst_rlib()
-    d = os.path.join(WORK, "prog", "_verdict")
+    d = os.path.join(WORK, "prog", "_verdict-%d" % os.getpid())
     os.makedirs(d, exist_ok=True)
     path = os.path.join(d, tag + ".rs")
     with open(path, "w") as f:
@@ -289,6 +323,7 @@ def verdicts(items, workers=12):
     konst_rlib()
     with ThreadPoolExecutor(workers) as ex:
         res = list(ex.map(lambda it: (it[0], rustc_verdict(it[1], it[0])), items))
+    shutil.rmtree(os.path.join(WORK, "prog", "_verdict-%d" % os.getpid()), ignore_errors=True)
     return dict(res)
 
 
